@@ -44,7 +44,7 @@ MUTATING_METHODS = {
     'sort', 'shuffle', 'permutation', 'choice', 'rand', 'randn', 'randint', 'random', 'random_sample', 'normal',
     'uniform', 'seed', 'add', 'remove', 'insert', 'setdefault', 'eliminate_zeros', 'sort_indices', 'sum_duplicates',
     'setdiag', 'resize', 'fill', 'put', 'partition', 'discard', 'popitem', 'reverse', 'backward', 'set_params',
-    'binomial', 'poisson', 'exponential', 'standard_normal', 'bytes', 'set_state',
+    'binomial', 'poisson', 'exponential', 'standard_normal', 'bytes', 'set_state', 'reset',
 }
 FIT_METHODS = {'fit', 'fit_predict', 'fit_transform', 'fit_predict_proba'}
 MAX_DEPTH = 8
@@ -93,6 +93,7 @@ class Tree:
         self.functions = {}     # (module, fname) -> FunctionDef
         self.imports = {}       # module -> {local name: (source module, original name)}
         self.pyx = {}           # dotted module -> source text
+        self.module_names = {}  # module -> names assigned at module level
         base = os.path.join(root, 'sknetwork')
         for d, dirs, files in sorted(os.walk(base)):
             dirs.sort()
@@ -129,7 +130,19 @@ class Tree:
                         src_mod = '.'.join(parts[:len(parts) - st.level] + ([st.module] if st.module else []))
                     for a in st.names:
                         imps[a.asname or a.name] = (src_mod, a.name)
+                elif isinstance(st, ast.Import):
+                    for a in st.names:
+                        # `import numpy.random as npr` binds npr to numpy.random; `import numpy.random` binds numpy
+                        imps[a.asname or a.name.split('.')[0]] = (a.name if a.asname else a.name.split('.')[0], None)
             self.imports[mod] = imps
+            # names bound at module level (mutable module state when a method stores into them)
+            glob = set()
+            for st in tree.body:
+                for tg in (st.targets if isinstance(st, ast.Assign) else [st.target] if isinstance(st, (ast.AnnAssign, ast.AugAssign)) else []):
+                    for n in ast.walk(tg):
+                        if isinstance(n, ast.Name):
+                            glob.add(n.id)
+            self.module_names[mod] = glob
             for st in tree.body:
                 if isinstance(st, ast.ClassDef):
                     if st.name in self.classes:
@@ -254,6 +267,8 @@ class Analysis:
         self.reads_first = []
         self.may_write = []
         self.must_write = []
+        self.deep_always = []
+        self.inner_unfitted = set()
         self.deep = {}          # attr -> set of reasons
         self.logs = set()
         self.normalised = {}    # attr -> class name
@@ -264,6 +279,7 @@ class Analysis:
         self._func_rng_memo = {}
         self._stack = []
         self._fn_stack = []
+        self._locals_memo = {}
 
     # ---------------------------------------------------------------------------------------
     def run(self):
@@ -286,7 +302,8 @@ class Analysis:
                 m = set(exits[0])
                 for e in exits[1:]:
                     m &= set(e)
-                self.must_write = sorted(m)
+                self.must_write = sorted(a for a in m if not a.startswith('<fit:'))
+                self.deep_always = sorted(a[5:-1] for a in m if a.startswith('<fit:'))
             else:
                 self.must_write = []
                 self.notes.append('fit has no normal exit')
@@ -400,6 +417,17 @@ class Analysis:
                 e2 = dict(env)
                 self._init_block(st.orelse, cls, e2, depth)
                 after2 = dict(self.init)
+                # a branch that ends in `raise` validates and constructs nothing: the other branch decides
+                r1 = bool(st.body) and isinstance(st.body[-1], ast.Raise)
+                r2 = bool(st.orelse) and isinstance(st.orelse[-1], ast.Raise)
+                if r1 != r2:
+                    keep, ekeep = (after2, e2) if r1 else (after1, e1)
+                    for a in keep:
+                        if a not in self.init_order:
+                            self.init_order.append(a)
+                    self.init = dict(keep)
+                    env.update(ekeep)
+                    continue
                 merged = dict(before)
                 for a in set(after1) | set(after2):
                     v1, v2 = after1.get(a), after2.get(a)
@@ -461,6 +489,11 @@ class Analysis:
         if attr not in D:
             self._add(self.reads_first, attr)
 
+    def _inner_read(self, attr, D):
+        """`self.<attr>.<something>` is read: before or after the object has been refitted in this call?"""
+        if ('<fit:%s>' % attr) not in D and attr not in D:
+            self.inner_unfitted.add(attr)
+
     def _deep(self, attr, why, D):
         if attr in D:
             return      # freshly assigned in this call: a new object
@@ -499,6 +532,10 @@ class Analysis:
                 self._deep(base.attr, 'store', D)
             elif isinstance(base, ast.Name) and base.id in alias:
                 self._deep(alias[base.id], 'store-through-alias', D)
+            else:
+                out = self._outer_state(base, cls)
+                if out:
+                    self.opaque.append('store into ' + out)
             if isinstance(tg, ast.Subscript):
                 self._expr(tg.slice, D, cls, exits, depth, alias)
         return got
@@ -533,6 +570,10 @@ class Analysis:
                 return frozenset(D2 | {tg.attr})
             self._expr(tg, D2, cls, exits, depth, alias)
             self._targets(tg, D2, cls, exits, depth, alias)
+            if isinstance(tg, ast.Name):
+                out = self._outer_state(tg, cls)
+                if out:
+                    self.opaque.append('store into ' + out)
             return D2
         if isinstance(st, ast.Expr):
             return E(st.value)
@@ -609,7 +650,10 @@ class Analysis:
                 if _is_self_attr(n) and isinstance(n.ctx, ast.Load):
                     self._read(n.attr, D)
             return D
-        if isinstance(st, (ast.Pass, ast.Break, ast.Continue, ast.Import, ast.ImportFrom, ast.Global, ast.Nonlocal)):
+        if isinstance(st, (ast.Global, ast.Nonlocal)):
+            self.opaque.append('%s %s' % ('global' if isinstance(st, ast.Global) else 'nonlocal', ','.join(st.names)))
+            return D
+        if isinstance(st, (ast.Pass, ast.Break, ast.Continue, ast.Import, ast.ImportFrom)):
             return D
         if isinstance(st, ast.Assert):
             return E(st.test)
@@ -651,6 +695,15 @@ class Analysis:
                 c2, fn = self.t.resolve(self.mro, e.attr)
                 if fn is None:
                     self._read(e.attr, D)
+            return D
+        if isinstance(e, ast.Attribute) and isinstance(e.ctx, ast.Load) and _is_self_attr(e.value) \
+                and e.attr not in MUTATING_METHODS:
+            self._inner_read(e.value.attr, D)
+        if isinstance(e, ast.Attribute) and isinstance(e.ctx, ast.Load) and _is_self_attr(e.value) \
+                and e.attr in MUTATING_METHODS:
+            # `self.x.fit_predict` handed somewhere as a bound method (partial, map, …): it will be called on self.x
+            self._read(e.value.attr, D)
+            self._deep(e.value.attr, e.attr + '-reference', D)
             return D
         if isinstance(e, (ast.Lambda,)):
             for n in ast.walk(e):
@@ -720,15 +773,28 @@ class Analysis:
             D = self._expr(kw.value, D, cls, exits, depth, alias)
         ch = _attr_chain(f)
         # --- random sources ------------------------------------------------------------------
-        if ch:
-            if len(ch) >= 3 and ch[-3] in ('np', 'numpy') and ch[-2] == 'random':
-                fn_name = ch[-1]
+        dotted = self._dotted(f, cls)
+        if dotted is None and ch and len(ch) >= 3 and ch[-3] in ('np', 'numpy') and ch[-2] == 'random':
+            dotted = 'numpy.random.' + ch[-1]
+        if dotted:
+            if dotted.startswith('numpy.random.') and dotted.count('.') == 2:
+                fn_name = dotted.split('.')[-1]
                 if fn_name == 'seed':
                     self._add_rng(('npSeed', ''))
                 elif fn_name in ('RandomState', 'default_rng', 'Generator'):
                     self._add_rng(('fresh', fn_name) if e.args or e.keywords else ('entropy', fn_name))
                 else:
                     self._add_rng(('npGlobal', fn_name))
+            elif dotted.startswith('random.') and dotted.count('.') == 1:
+                # the standard library's global generator: seeded by the operating system, no seed of the library reaches it
+                self._add_rng(('entropy', 'stdlib ' + dotted))
+            elif dotted in ('os.urandom', 'os.getrandom') or dotted.split('.')[0] in ('secrets', 'uuid') or \
+                    dotted in ('time.time', 'time.time_ns', 'time.perf_counter', 'time.perf_counter_ns', 'time.monotonic',
+                               'time.process_time', 'datetime.datetime.now', 'datetime.datetime.utcnow', 'os.getpid'):
+                self._add_rng(('entropy', dotted))
+        if isinstance(f, ast.Name) and f.id in ('id', 'hash') and f.id not in self._locals():
+            self._add_rng(('entropy', 'builtin %s() (address / per-process string hashing)' % f.id))
+        if ch:
             if ch[-1] in ('eigsh', 'svds', 'eigs', 'lobpcg'):
                 # ARPACK: the start vector and (recent SciPy) the generator of the restart vectors must both be given
                 v0 = [kw for kw in e.keywords if kw.arg in ('v0', 'X')]
@@ -790,14 +856,25 @@ class Analysis:
                 root = root.value
             if _is_self_attr(root):
                 self._read(root.attr, D)
+                if root is not base:
+                    self._inner_read(root.attr, D)      # self.x.attr.method(…): reads a fitted attribute of x
                 if meth in MUTATING_METHODS:
                     self._deep(root.attr, meth, D)
+                    if meth in FIT_METHODS and root is base:
+                        # the attribute object is (re)fitted here: remembered as a pseudo-attribute of the
+                        # definite-assignment analysis, so that "on every path" is decided like for attributes
+                        D = frozenset(D | {'<fit:%s>' % root.attr})
                 elif meth not in PURE_METHODS:
                     self._deep(root.attr, '?' + meth, D)
             elif isinstance(root, ast.Name) and root.id in alias:
                 if meth in MUTATING_METHODS:
                     self._deep(alias[root.id], meth + '-through-alias', D)
+                    if meth in FIT_METHODS and root is base:
+                        D = frozenset(D | {'<fit:%s>' % alias[root.id]})
             else:
+                out = self._outer_state(root, cls)
+                if out and meth in MUTATING_METHODS and not (dotted or '').startswith(('numpy.', 'random.')):
+                    self.opaque.append('%s() on %s' % (meth, out))
                 D = self._expr(base, D, cls, exits, depth, alias)
             if isinstance(base, ast.expr) and _is_self_attr(root) and root is not base:
                 pass
@@ -829,6 +906,64 @@ class Analysis:
         else:
             D = self._expr(f, D, cls, exits, depth, alias)
         return D
+
+    def _module_of(self, cls):
+        return self.t.classes[cls].module if cls in self.t.classes else None
+
+    def _dotted(self, f, cls):
+        """Fully qualified dotted name of a call target, resolved through the imports of the module that defines the
+        code being analysed: `np.random.rand` -> numpy.random.rand, `_perm` (from numpy.random import permutation as
+        _perm) -> numpy.random.permutation, `random.shuffle` (import random) -> random.shuffle.  None if unknown."""
+        ch = _attr_chain(f)
+        if not ch:
+            return None
+        mod = self._module_of(cls)
+        imp = self.t.imports.get(mod, {}).get(ch[0]) if mod else None
+        if imp is None:
+            return None
+        src, orig = imp
+        head = src if orig is None else src + '.' + orig
+        return '.'.join([head] + ch[1:])
+
+    def _locals(self):
+        """names bound inside the function being analysed (arguments, assignment / loop / with / comprehension targets)"""
+        if not self._fn_stack:
+            return set()
+        fn = self._fn_stack[-1]
+        key = id(fn)
+        if key not in self._locals_memo:
+            names = {a.arg for a in fn.args.args + fn.args.kwonlyargs}
+            if fn.args.vararg:
+                names.add(fn.args.vararg.arg)
+            if fn.args.kwarg:
+                names.add(fn.args.kwarg.arg)
+            declared_global = set()
+            for n in ast.walk(fn):
+                if isinstance(n, ast.Name) and isinstance(n.ctx, ast.Store):
+                    names.add(n.id)
+                elif isinstance(n, (ast.Global, ast.Nonlocal)):
+                    declared_global |= set(n.names)
+            self._locals_memo[key] = names - declared_global
+        return self._locals_memo[key]
+
+    def _outer_state(self, root, cls):
+        """Is the name `root` (not a local of the function) module-level state of the defining module, a class of the
+        tree, or `type(self)` / `self.__class__`?  -> description or None"""
+        if isinstance(root, ast.Name):
+            nm = root.id
+            if nm in self._locals() or nm == 'self':
+                return None
+            mod = self._module_of(cls)
+            if nm in self.t.classes:
+                return 'class attribute of ' + nm
+            if mod and nm in self.t.module_names.get(mod, ()):
+                return 'module-level name ' + nm
+            return None
+        if isinstance(root, ast.Call) and isinstance(root.func, ast.Name) and root.func.id == 'type':
+            return 'type(self)'
+        if isinstance(root, ast.Attribute) and root.attr == '__class__':
+            return 'self.__class__'
+        return None
 
     def _is_none_default_param(self, node):
         """`v0=init_vector` where init_vector is a parameter of the enclosing function that defaults to None and is
@@ -882,7 +1017,8 @@ class Analysis:
                 cls = k[1]
             elif a in self.normalised:
                 cls = self.normalised[a]
-            deep.append({'attr': a, 'cls': cls, 'why': sorted(self.deep[a])})
+            deep.append({'attr': a, 'cls': cls, 'why': sorted(self.deep[a]), 'always': a in self.deep_always,
+                         'reads_unfitted': a in self.inner_unfitted})
         init = []
         seen_init = set()
         for a in self.init_order:
@@ -1092,9 +1228,9 @@ def lean_ident(name):
     return 'e_' + ''.join(c if c.isalnum() else '_' for c in name)
 
 
-def emit_lean(descs, crs):
-    out = ['/- generated by tools/translate/estimators.py from the working tree; do not edit -/',
-           'import SkNet.Model.Estimator', 'namespace SkNet.Generated.EstimatorState', 'open SkNet.Estimator', '']
+def emit_lean(descs, crs, namespace='SkNet.Generated.EstimatorState', header=True):
+    out = (['/- generated by tools/translate/estimators.py from the working tree; do not edit -/',
+            'import SkNet.Model.Estimator'] if header else []) + ['namespace ' + namespace, 'open SkNet.Estimator', '']
     for d in descs:
         out.append('def %s : Est :=' % lean_ident(d['name']))
         out.append('  { name := %s,' % _lstr(d['name']))
@@ -1108,12 +1244,14 @@ def emit_lean(descs, crs):
         out.append('    normalised := %s,' % _llist(d['normalised'], lambda x: '(%s, %s)' % (_lstr(x['attr']), _lstr(x['cls']))))
         out.append('    rng := %s,' % _llist(d['rng'], _lrng))
         out.append('    subs := %s,' % _llist(d['subs']))
-        out.append('    blind := %s }' % _llist(d['opaque']))
+        out.append('    blind := %s,' % _llist(d['opaque']))
+        out.append('    deepAlways := %s,' % _llist([x['attr'] for x in d['deep'] if x.get('always')]))
+        out.append('    deepReadsUnfitted := %s }' % _llist([x['attr'] for x in d['deep'] if x.get('reads_unfitted')]))
         out.append('')
     out.append('def estimators : List Est := [' + ', '.join(lean_ident(d['name']) for d in descs) + ']')
     out.append('/-- branches of utils/check.py:check_random_state, in order: (test, result) -/')
     out.append('def checkRandomState : List (String × String) := ' + _llist(crs, lambda x: '(%s, %s)' % (_lstr(x[0]), _lstr(x[1]))))
-    out.append('end SkNet.Generated.EstimatorState')
+    out.append('end ' + namespace)
     return '\n'.join(out) + '\n'
 
 
